@@ -44,6 +44,9 @@ def _put(m, env, name, x, y, z):
         Ant._components.clear()
         Ant.add_class_component(PositionComponent(Ant, m, 5, 5, 0))
         a = Ant(name, m)
+    elif hx.P.get('nested'):
+        from ECAgent.Core import Environment
+        a = Environment(m, id=name)        # an (empty) sub-environment placed like any other agent: a nest, a patch
     else:
         a = Agent(name, m)
     a.add_component(PositionComponent(a, m, x, y, z))
@@ -84,6 +87,15 @@ def box_int(x0: int, y0: int, z0: int, x1: int, y1: int, z1: int, qx: int, qy: i
         y0 = y1 = qy = ly = 0
     if 'z' not in axes:
         z0 = z1 = qz = lz = 0
+    if hx.P.get('detached'):
+        # the world queried is NOT the one registered as model.environment (a second spatial layer of the same model):
+        # the registered one holds an agent of its own at the query point, which must not show up
+        from ECAgent.Core import Environment
+        main = Environment(m, id="MAIN")
+        m.set_environment(main)
+        intruder = Agent("intruder", m)
+        intruder.add_component(PositionComponent(intruder, m, qx, qy, qz))
+        main.agents[intruder.id] = intruder
     ags = [_put(m, env, "a0", x0, y0, z0)]
     where = [(x0, y0, z0)]                 # the oracle uses the positions the agents were given, not a read-back
     if nag >= 2:
@@ -245,6 +257,8 @@ def obligations(tier):
              {"world": "space", "n": 1, "axes": "xy"}]
     parts += [{"world": "free", "n": 3, "axes": "x", "third": t} for t in ([0, 0, 0], [5, 0, 0], [-3, 0, 0], [5, 1, 0])]
     parts += [{"world": "free", "n": 1, "axes": "xy", "class_pos": True}]
+    parts += [{"world": "free", "n": 2, "axes": "x", "nested": True}, {"world": "grid", "n": 1, "axes": "xy", "nested": True},
+              {"world": "free", "n": 2, "axes": "x", "detached": True}, {"world": "grid", "n": 1, "axes": "xy", "detached": True}]
     if tier != "quick":
         parts += [{"world": "free", "n": 2, "axes": "xy"}, {"world": "grid", "n": 2, "axes": "xy"}]
     W = (2, 3, 10) if tier == "quick" else (1, 2, 3, 4, 7, 10)
